@@ -757,14 +757,37 @@ theorem runFrom_at (tx : List TOp) : ∀ (rest : List TOp) (i : Nat) (w w' : WSt
         exact ⟨w, w1, hp, h1⟩
     · cases h
 
-/-- every instruction of a committed transaction was accepted on some reached state (no invariant attached) -/
-theorem runFrom_reached (tx : List TOp) : ∀ (rest : List TOp) (i : Nat) (w w' : WState), tx.drop i = rest →
-    WState.runFrom tx i rest w = some w' →
-    ∀ (j : Nat) (t : TOp), i ≤ j → tx[j]? = some t → ∃ (wj wj' : WState), wj.stepIn tx j t = some wj' := by
+/-- the state instruction `i` of transaction `tx` finds when the transaction is run on `w`: the first `i` instructions executed -/
+def WState.before (w : WState) (tx : List TOp) (i : Nat) : Option WState := WState.runFrom tx 0 (tx.take i) w
+
+theorem runFrom_snoc (tx : List TOp) : ∀ (l : List TOp) (k : Nat) (w wk w1 : WState) (op : TOp),
+    WState.runFrom tx k l w = some wk → wk.stepIn tx (k + l.length) op = some w1 → WState.runFrom tx k (l ++ [op]) w = some w1 := by
+  intro l
+  induction l with
+  | nil =>
+    intro k w wk w1 op h hs
+    simp only [WState.runFrom] at h
+    injection h with h; subst h
+    simp only [List.nil_append, WState.runFrom, List.length_nil, Nat.add_zero] at hs ⊢
+    rw [hs]
+  | cons x rest ih =>
+    intro k w wk w1 op h hs
+    simp only [List.cons_append, WState.runFrom] at h ⊢
+    split at h
+    · rename_i w2 h2
+      apply ih (k + 1) w2 wk w1 op h
+      have : k + 1 + rest.length = k + (x :: rest).length := by simp only [List.length_cons]; omega
+      rw [this]; exact hs
+    · cases h
+
+/-- every instruction of a committed transaction was accepted on the state the transaction had reached before it -/
+theorem runFrom_reached (tx : List TOp) (w0 : WState) : ∀ (rest : List TOp) (i : Nat) (w w' : WState), tx.drop i = rest →
+    w0.before tx i = some w → WState.runFrom tx i rest w = some w' →
+    ∀ (j : Nat) (t : TOp), i ≤ j → tx[j]? = some t → ∃ (wj wj' : WState), w0.before tx j = some wj ∧ wj.stepIn tx j t = some wj' := by
   intro rest
   induction rest with
   | nil =>
-    intro i w w' hd h j t hij hj
+    intro i w w' hd _ h j t hij hj
     have hlen : tx.length ≤ i := by
       rcases Nat.lt_or_ge i tx.length with h1 | h1
       · have : (tx.drop i).length = tx.length - i := List.length_drop
@@ -776,90 +799,121 @@ theorem runFrom_reached (tx : List TOp) : ∀ (rest : List TOp) (i : Nat) (w w' 
       · rw [List.getElem?_eq_none h1] at hj; cases hj
     omega
   | cons op rest ih =>
-    intro i w w' hd h j t hij hj
+    intro i w w' hd hbef h j t hij hj
     obtain ⟨hti, hd'⟩ := drop_cons_facts hd
     simp only [WState.runFrom] at h
     split at h
     · rename_i w1 h1
       rcases Nat.lt_or_ge i j with hlt | hge
-      · exact ih (i + 1) w1 w' hd' h j t (by omega) hj
+      · have hlt' : i < tx.length := by
+          rcases Nat.lt_or_ge i tx.length with h2 | h2
+          · exact h2
+          · rw [List.getElem?_eq_none h2] at hti; cases hti
+        have htake : tx.take (i + 1) = tx.take i ++ [op] := by
+          rw [List.take_succ, hti]; rfl
+        have hbef1 : w0.before tx (i + 1) = some w1 := by
+          unfold WState.before at hbef ⊢
+          rw [htake]
+          apply runFrom_snoc tx (tx.take i) 0 w0 w w1 op hbef
+          have : (tx.take i).length = i := by simp [List.length_take]; omega
+          rw [this, Nat.zero_add]; exact h1
+        exact ih (i + 1) w1 w' hd' hbef1 h j t (by omega) hj
       · have : j = i := by omega
         subst this
         rw [hti] at hj
         injection hj with hj
         subst hj
-        exact ⟨w, w1, h1⟩
+        exact ⟨w, w1, hbef, h1⟩
     · cases h
+
+theorem before_zero (w : WState) (tx : List TOp) : w.before tx 0 = some w := by
+  unfold WState.before; simp [WState.runFrom]
 
 /-- a deposit of a committed transaction ran, and succeeded, on some reached state -/
 theorem tx_deposit_ran {w w' : WState} {tx : List TOp} (h : w.runTx tx = some w')
     {i ai bi signer : Nat} {amount : Int} {upTo : Bool} (hi : tx[i]? = some (.ix (.deposit ai bi signer amount upTo))) :
-    ∃ (wi : WState) (a : AcctV) (b : WBank) (o : Out), wi.accts[ai]? = some a ∧ wi.banks[bi]? = some b ∧
+    ∃ (wi : WState) (a : AcctV) (b : WBank) (o : Out), w.before tx i = some wi ∧ wi.accts[ai]? = some a ∧ wi.banks[bi]? = some b ∧
       deposit (wi.ctx a b signer b.v.liquidityVault 0) amount upTo = .ok o := by
-  obtain ⟨wi, wi', hst⟩ := runFrom_reached tx tx 0 w w' rfl h i _ (Nat.zero_le _) hi
+  obtain ⟨wi, wi', hbef, hst⟩ := runFrom_reached tx w tx 0 w w' rfl (before_zero w tx) h i _ (Nat.zero_le _) hi
   simp only [WState.stepIn, WState.step?] at hst
   split at hst
   · rename_i a b ha hb
     split at hst
-    · rename_i o ho; exact ⟨wi, a, b, o, ha, hb, ho⟩
+    · rename_i o ho; exact ⟨wi, a, b, o, hbef, ha, hb, ho⟩
     · cases hst
   · cases hst
 
 /-- … and so did a borrow -/
 theorem tx_borrow_ran {w w' : WState} {tx : List TOp} (h : w.runTx tx = some w')
     {i ai bi signer : Nat} {amount : Int} (hi : tx[i]? = some (.ix (.borrow ai bi signer amount))) :
-    ∃ (wi : WState) (a : AcctV) (b : WBank) (o : Out), wi.accts[ai]? = some a ∧ wi.banks[bi]? = some b ∧
+    ∃ (wi : WState) (a : AcctV) (b : WBank) (o : Out), w.before tx i = some wi ∧ wi.accts[ai]? = some a ∧ wi.banks[bi]? = some b ∧
       borrow (wi.ctx a b signer b.v.liquidityVault 0) amount = .ok o := by
-  obtain ⟨wi, wi', hst⟩ := runFrom_reached tx tx 0 w w' rfl h i _ (Nat.zero_le _) hi
+  obtain ⟨wi, wi', hbef, hst⟩ := runFrom_reached tx w tx 0 w w' rfl (before_zero w tx) h i _ (Nat.zero_le _) hi
   simp only [WState.stepIn, WState.step?] at hst
   split at hst
   · rename_i a b ha hb
     split at hst
-    · rename_i o ho; exact ⟨wi, a, b, o, ha, hb, ho⟩
+    · rename_i o ho; exact ⟨wi, a, b, o, hbef, ha, hb, ho⟩
     · cases hst
   · cases hst
 
 /-- … and a withdrawal -/
 theorem tx_withdraw_ran {w w' : WState} {tx : List TOp} (h : w.runTx tx = some w')
     {i ai bi signer : Nat} {amount vault : Int} {all : Bool} (hi : tx[i]? = some (.ix (.withdraw ai bi signer amount all vault))) :
-    ∃ (wi : WState) (a : AcctV) (b : WBank) (o : Out), wi.accts[ai]? = some a ∧ wi.banks[bi]? = some b ∧
+    ∃ (wi : WState) (a : AcctV) (b : WBank) (o : Out), w.before tx i = some wi ∧ wi.accts[ai]? = some a ∧ wi.banks[bi]? = some b ∧
       withdraw (wi.ctx a b signer b.v.liquidityVault vault) amount all = .ok o := by
-  obtain ⟨wi, wi', hst⟩ := runFrom_reached tx tx 0 w w' rfl h i _ (Nat.zero_le _) hi
+  obtain ⟨wi, wi', hbef, hst⟩ := runFrom_reached tx w tx 0 w w' rfl (before_zero w tx) h i _ (Nat.zero_le _) hi
   simp only [WState.stepIn, WState.step?] at hst
   split at hst
   · rename_i a b ha hb
     split at hst
-    · rename_i o ho; exact ⟨wi, a, b, o, ha, hb, ho⟩
+    · rename_i o ho; exact ⟨wi, a, b, o, hbef, ha, hb, ho⟩
     · cases hst
   · cases hst
 
 /-- … and a repayment -/
 theorem tx_repay_ran {w w' : WState} {tx : List TOp} (h : w.runTx tx = some w')
     {i ai bi signer : Nat} {amount : Int} {all : Bool} (hi : tx[i]? = some (.ix (.repay ai bi signer amount all))) :
-    ∃ (wi : WState) (a : AcctV) (b : WBank) (o : Out), wi.accts[ai]? = some a ∧ wi.banks[bi]? = some b ∧
+    ∃ (wi : WState) (a : AcctV) (b : WBank) (o : Out), w.before tx i = some wi ∧ wi.accts[ai]? = some a ∧ wi.banks[bi]? = some b ∧
       repay (wi.ctx a b signer b.v.liquidityVault 0) amount all = .ok o := by
-  obtain ⟨wi, wi', hst⟩ := runFrom_reached tx tx 0 w w' rfl h i _ (Nat.zero_le _) hi
+  obtain ⟨wi, wi', hbef, hst⟩ := runFrom_reached tx w tx 0 w w' rfl (before_zero w tx) h i _ (Nat.zero_le _) hi
   simp only [WState.stepIn, WState.step?] at hst
   split at hst
   · rename_i a b ha hb
     split at hst
-    · rename_i o ho; exact ⟨wi, a, b, o, ha, hb, ho⟩
+    · rename_i o ho; exact ⟨wi, a, b, o, hbef, ha, hb, ho⟩
     · cases hst
   · cases hst
 
 /-- … and a bankruptcy settlement -/
 theorem tx_bankruptcy_ran {w w' : WState} {tx : List TOp} (h : w.runTx tx = some w')
     {i ai bi signer : Nat} {available : Int} (hi : tx[i]? = some (.ix (.bankruptcy ai bi signer available))) :
-    ∃ (wi : WState) (a : AcctV) (b : WBank) (o : BkrOut), wi.accts[ai]? = some a ∧ wi.banks[bi]? = some b ∧
+    ∃ (wi : WState) (a : AcctV) (b : WBank) (o : BkrOut), w.before tx i = some wi ∧ wi.accts[ai]? = some a ∧ wi.banks[bi]? = some b ∧
       bankruptcy (wi.ctx a b signer b.v.liquidityVault 0) available = .ok o := by
-  obtain ⟨wi, wi', hst⟩ := runFrom_reached tx tx 0 w w' rfl h i _ (Nat.zero_le _) hi
+  obtain ⟨wi, wi', hbef, hst⟩ := runFrom_reached tx w tx 0 w w' rfl (before_zero w tx) h i _ (Nat.zero_le _) hi
   simp only [WState.stepIn, WState.step?] at hst
   split at hst
   · rename_i a b ha hb
     split at hst
-    · rename_i o ho; exact ⟨wi, a, b, o, ha, hb, ho⟩
+    · rename_i o ho; exact ⟨wi, a, b, o, hbef, ha, hb, ho⟩
     · cases hst
   · cases hst
+
+/-- … and a classic liquidation -/
+theorem tx_liquidate_ran {w w' : WState} {tx : List TOp} (h : w.runTx tx = some w')
+    {i qi ei abi lbi signer : Nat} {amount : Int} (hi : tx[i]? = some (.ix (.liquidate qi ei abi lbi signer amount))) :
+    ∃ (wi : WState) (lq le : AcctV) (ab lb : WBank) (o : LiqOutW), w.before tx i = some wi ∧ wi.accts[qi]? = some lq ∧ wi.accts[ei]? = some le ∧
+      wi.banks[abi]? = some ab ∧ wi.banks[lbi]? = some lb ∧ liquidate (wi.liqCtx lq le ab lb signer) amount = .ok o := by
+  obtain ⟨wi, wi', hbef, hst⟩ := runFrom_reached tx w tx 0 w w' rfl (before_zero w tx) h i _ (Nat.zero_le _) hi
+  simp only [WState.stepIn, WState.step?] at hst
+  split at hst
+  · cases hst
+  · split at hst
+    · rename_i lq le ab lb hq he hab hlb
+      split at hst
+      · rename_i o ho; exact ⟨wi, lq, le, ab, lb, o, hbef, hq, he, hab, hlb, ho⟩
+      · cases hst
+    · cases hst
 
 /-- **a borrow inside a committed transaction is backed by an initial-margin check**: either the borrow's own (the account was
     not in a flash loan: the check ran on the state the borrow left), or the one of the account's end_flashloan further down
